@@ -113,6 +113,7 @@ func main() {
 	out := flag.String("out", "-", "result JSON")
 	corpus := flag.String("corpus", "/verif/corpus", "corpus directory")
 	replay := flag.String("replay", "", "replay file (JSON with op and args)")
+	known := flag.String("known", "/verif/known_findings.json", "committed known-findings file (read-only)")
 	child := flag.String("child", "", "internal: run one contained operation batch")
 	flag.Parse()
 
@@ -121,6 +122,7 @@ func main() {
 		return
 	}
 
+	loadKnown(*known, *prop)
 	r := NewRunner(*prop, *tier, *seed, *oracle)
 
 	if *replay != "" {
